@@ -111,6 +111,12 @@ func (p *proc) start(env ...string) bool {
 		for sc.Scan() {
 			l := sc.Text()
 			p.out.add(l)
+			if d := os.Getenv("VERIF_CLUS_LOG"); d != "" {
+				if lf, err := os.OpenFile(filepath.Join(d, fmt.Sprintf("node%d.log", p.id)), os.O_APPEND|os.O_CREATE|os.O_WRONLY, 0644); err == nil {
+					lf.WriteString(l + "\n")
+					lf.Close()
+				}
+			}
 			if strings.HasPrefix(l, "READY") {
 				select {
 				case p.ready <- l:
@@ -484,6 +490,12 @@ func main() {
 		observe(ps, "restart")
 	case "lagging-leave":
 		// a follower is down while a node leaves (the partitions' replica sets change) and the log is compacted
+		// (several fully replicated datasets: whichever node is first in a partition's replica set proposes
+		// the removal of the leaving node from it)
+		for i := 0; i < 4; i++ {
+			create(a, 2, 3)
+		}
+		observe(ps, "create")
 		b.kill()
 		ctx, cancel := context.WithTimeout(context.Background(), 5*time.Second)
 		_, err := pb.NewNodesManagerClient(a.conn).RemoveNode(ctx, &pb.Node{Id: 3})
@@ -500,6 +512,45 @@ func main() {
 		}
 		time.Sleep(1500 * time.Millisecond)
 		emit(event{"ev": "snapshotted"})
+		b.start()
+		observe(ps, "restart")
+	case "lagging-replicas":
+		// a follower is down while a fourth node leaves, the replica sets of existing datasets change and
+		// the others compact their logs: the follower learns all of it from a snapshot
+		d := mk(4, "127.0.0.1:"+a.port)
+		okd := d.start()
+		okv := 0
+		if okd {
+			okv = 1
+			ps = append(ps, d)
+		}
+		emit(event{"ev": "joined", "node": 4, "addr": ":" + d.port, "ok": okv})
+		observe(ps, "join")
+		for i := 0; i < 4; i++ {
+			create(a, 2, 3)
+		}
+		observe(ps, "create")
+		b.kill()
+		ctx, cancel := context.WithTimeout(context.Background(), 5*time.Second)
+		_, err := pb.NewNodesManagerClient(a.conn).RemoveNode(ctx, &pb.Node{Id: 4})
+		cancel()
+		okv, es := 1, ""
+		if err != nil {
+			okv, es = 0, err.Error()
+		}
+		emit(event{"ev": "left", "node": 4, "ok": okv, "err": es})
+		time.Sleep(2500 * time.Millisecond)
+		d.kill()
+		observe(ps, "leave")
+		for _, p := range []*proc{a, c} {
+			if p.checkAlive() {
+				p.cmd.Process.Signal(syscall.SIGUSR1)
+			}
+		}
+		time.Sleep(1500 * time.Millisecond)
+		emit(event{"ev": "snapshotted"})
+		create(a, 1, 2)
+		observe(ps, "create")
 		b.start()
 		observe(ps, "restart")
 	case "leave":
